@@ -73,3 +73,8 @@ for k in range(12):
     add("C13.ext.s%02d"%k,"VH_c13_ext",TBL,c13,{"params":{"lamax":999999},"unwind":70000},{"params":{"lamax":0},"unwind":70000,"harness_s":2400},expect_reach=["end"],pins={"set":k},symbolic_text=True,bounds="one ext-community set of the pool (1-2 patterns), one two-octet-AS community with symbolic sub-type (rt/soo), AS (16 bit), local admin (32 bit) and transitivity, any/all/invert")
 for k in range(4):
     add("C13.ext_edit.s%d"%k,"VH_c13_ext_edit",TBL,c13,{"params":{"lamax":999999},"unwind":70000},{"params":{"lamax":0},"unwind":70000,"harness_s":2400},expect_reach=["end"],pins={"set":k},symbolic_text=True)
+c16=tc+["table/c16.go","table/c14.go"]
+for rp in range(6):
+  for op in range(4):
+    add("C16.validate.r%d.o%d"%(rp,op),"VH_c16_validate",TBL,c16,{"roas":2},{"params":{"roas":3},"harness_s":2400},expect_reach=["end"],pins={"route_pfx":rp,"op":op},bounds="`roas` ROAs over 4 nested/unrelated IPv4 prefixes with symbolic max-length (valid range), AS (incl. 0) and one of 2 caches; one maintenance operation (none / withdraw announced / withdraw unknown / drop cache); route over 6 prefixes with 5 AS_PATH shapes and symbolic origin / local AS")
+add("C16.rtr_sessions","VH_c16_rtr_sessions",SRV,sc+["server/c16.go"],expect_reach=["end"],bounds="one cache: full response (2 records), incremental withdraw of a known or unknown record and re-announcement, second full response under the same or a different session id (session ids, serials and AS numbers symbolic)")
